@@ -25,6 +25,7 @@ TRUSTED = [
 ASSUMPTIONS = [
     'context data keys are ordinary identifiers that do not shadow NotImplemented / Ellipsis (those two names always mean the builtins)',
     'values are compared up to a canonical form: scalars by repr, containers recursively, generators by their items, functions and other objects by type',
+    'a case on which the reference (CPython compiling its own tree with the lookups plugged in) and plain eval() disagree although no extension was used is not judged (counted as oracle-uncertain): CPython 3.12.1 raises a spurious UnboundLocalError for a free name that is also the loop variable of a comprehension nested in the iterable of another comprehension inside a lambda',
 ]
 
 UNBOUND = object()
@@ -403,8 +404,11 @@ def oracle_case(case):
         g.update(d3)
         py = outcome(lambda: eval(compile(tree, '<ref>', 'eval'), g))
         if py != want:
-            return {'case': case, 'what': 'oracle self-check: reference evaluator agrees with CPython eval when no extension is used',
-                    'expected': py, 'observed': want}
+            # the two statements of "what Python computes" disagree, so there is no trustworthy expected
+            # value: the case is not judged (counted by classify() as oracle-uncertain).  Seen with CPython
+            # 3.12.1's comprehension inlining: inside a lambda, `[j for j in [[b for x in items]] if x]`
+            # raises UnboundLocalError for the free name x.
+            return None
     if got != want:
         return {'case': case, 'what': 'Expression(%r, lookup=%r).evaluate(data) gives what Python gives (names: data, builtins, undefined; documented attribute/item fallback)' % (src, lookup),
                 'expected': want, 'observed': got, 'extensions_used': ref.ext}
@@ -428,6 +432,14 @@ def classify(case):
         return 'ref-unsupported'
     except TooBig:
         return 'skipped-too-big'
+    if ref.ext == 0:
+        g = dict(builtins.__dict__)
+        g.update(build_data(case['data']))
+        try:
+            if outcome(lambda: eval(compile(tree, '<ref>', 'eval'), g)) != o:
+                return 'oracle-uncertain:reference-vs-eval'
+        except (Unsupported, TooBig, RecursionError):
+            return 'oracle-uncertain:reference-vs-eval'
     return ('value' if o[0] == 'ok' else 'raises:' + o[1]) + (':ext' if ref.ext else '')
 
 
